@@ -7,7 +7,7 @@ is isolated in two lemmas that are proved on every run -- see (7) there.
 """
 import math
 import numpy as np
-from pyvc.contract import contract, corollary, macro, CONTRACTS
+from pyvc.contract import contract, corollary, macro, spec_fn, CONTRACTS
 from pyvc import gens
 from pyvc.ext import c18 as _ext
 
@@ -21,91 +21,147 @@ macro("mv18", ["c", "m", "p"], "c + m * (p - c)", py=lambda c, m, p: c + m * (p 
 for _n in ("ins18", "out18", "bnd18", "wit18"):       # per-clause row markers / witness marker (triggers only; `True`)
     macro(_n, ["i"], "True", py=lambda i: True, opaque=(["int"], "bool"))
 macro("scale18", ["c0", "c1", "p0", "p1", "rb"], "True", py=lambda *a: True, opaque=(["real"] * 5, "bool"))   # lemma trigger
+# squared coordinate difference and distance of (y, x) from (c0, c1), as symbols of their own (plain triggers)
+macro("sqd18", ["a", "b"], "sq18(a - b)", py=lambda a, b: (a - b) * (a - b), opaque=(["real", "real"], "real"))
+macro("radp18", ["y", "x", "c0", "c1"], "sqrt(sq18(y - c0) + sq18(x - c1))",
+      py=lambda y, x, c0, c1: float(np.sqrt((y - c0) ** 2 + (x - c1) ** 2)), opaque=(["real"] * 4, "real"))
 # distance of point i of the (n, 2) array A from (c0, c1)
-macro("rad18", ["A", "i", "c0", "c1"], "sqrt(sq18(A[i, 0] - c0) + sq18(A[i, 1] - c1))",
+macro("rad18", ["A", "i", "c0", "c1"], "radp18(A[i, 0], A[i, 1], c0, c1)",
       py=lambda A, i, c0, c1: float(np.sqrt((A[i, 0] - c0) ** 2 + (A[i, 1] - c1) ** 2)))
 # squared distance between point i of P and point j of Q ("nearest" is the same for distance and squared distance)
-macro("dsq18", ["P", "i", "Q", "j"], "sq18(P[i, 0] - Q[j, 0]) + sq18(P[i, 1] - Q[j, 1])",
+macro("dsq18", ["P", "i", "Q", "j"], "sqd18(P[i, 0], Q[j, 0]) + sqd18(P[i, 1], Q[j, 1])",
       py=lambda P, i, Q, j: float((P[i, 0] - Q[j, 0]) ** 2 + (P[i, 1] - Q[j, 1]) ** 2))
 # bit-for-bit equality: plain equality for the prover; at run time EXACT float equality (the DSL's own `==` is tolerant)
 macro("same18", ["a", "b"], "a == b", py=lambda a, b: bool(a == b))
 # a <= b; at run time up to the tolerance of the DSL's `==` (rounding of a computed radius)
 macro("le18", ["a", "b"], "a <= b", py=lambda a, b: bool(a <= b or abs(a - b) <= 1e-9 * max(1.0, abs(a), abs(b))))
 
-_R = "rad18(grid, i, c0, c1)"            # distance of coordinate i from the border centroid
-_RB = "rad18(border_grid, {j}, c0, c1)"  # radius of border point j
-_UNCH = "same18({o}[i, 0], grid[i, 0]) and same18({o}[i, 1], grid[i, 1])"
+# ----------------------------------------------------------------------------- spec functions (mirror of the kernel)
+# border centroid coordinate d: the mean of column d of the border points
+macro("cen18", ["Bd", "d"], "np.mean(Bd[:, d])", py=lambda Bd, d: float(np.mean(Bd[:, d])))
+_GUARD = "G.shape[1] == 2 and Bd.shape[1] == 2 and B >= 1"
+_C0, _C1 = "cen18(Bd, 0)", "cen18(Bd, 1)"
 
 
-def _rule(o):
-    """the relocation rule for coordinate i, output array `o` (three clauses of the property statement).
+def _nb_py(G, Bd, i):
+    return int(np.argmin([(G[i, 0] - Bd[j, 0]) ** 2 + (G[i, 1] - Bd[j, 1]) ** 2 for j in range(Bd.shape[0])]))
+
+
+def _bmin_py(Bd, t):
+    c0, c1 = float(np.mean(Bd[:, 0])), float(np.mean(Bd[:, 1]))
+    return float(min(float(np.sqrt((Bd[j, 0] - c0) ** 2 + (Bd[j, 1] - c1) ** 2)) for j in range(Bd.shape[0])))
+
+
+# smallest border radius (t is a dummy argument, always 0: a spec function needs one scalar argument)
+spec_fn("bmin18", params=[("Bd", "real[2]"), ("t", "int")], ret="real", let={"B": "Bd.shape[0]"},
+        axioms=["implies(Bd.shape[1] == 2 and B >= 1, forall(0, 1, lambda t: forall(0, B, lambda j:"
+                " bmin18(Bd, t) <= rad18(Bd, j, " + _C0 + ", " + _C1 + "), pat=((bmin18(Bd, t), rad18(Bd, j, " + _C0 + ", " + _C1 + ")),))))",
+                "implies(Bd.shape[1] == 2 and B >= 1, forall(0, 1, lambda t: exists(0, B, lambda j:"
+                " bmin18(Bd, t) == rad18(Bd, j, " + _C0 + ", " + _C1 + ")), pat=bmin18(Bd, t)))"],
+        py=_bmin_py, doc="smallest distance of a border point from the border centroid (declarative: a lower bound that is attained)")
+
+
+def _exp(G, Bd, i, d, c0="c0", c1="c1"):
+    """expected output coordinate d of point i: the statement's rule with the FIRST nearest border point"""
+    r = "rad18(%s, %s, %s, %s)" % (G, i, c0, c1)
+    rb = "rad18(%s, nb18(%s, %s, %s), %s, %s)" % (Bd, G, Bd, i, c0, c1)
+    return ("(mv18(%s, mfac18(%s, %s), %s[%s, %d]) if (%s > bmin18(%s, 0) and %s < %s) else %s[%s, %d])"
+            % ((c0, c1)[d], rb, r, G, i, d, r, Bd, rb, r, G, i, d))
+
+
+def _rule(o0, o1, G="grid", Bd="border_grid", c0="c0", c1="c1"):
+    """the three clauses of the property statement for coordinate i whose output is (o0, o1).
     Triggers: border quantifiers whose body mentions the radius of border point j fire on that radius term, `nearest`
-    fires on the border coordinate -- so that the Skolem index of a refuted `nearest` never re-triggers the search for b."""
-    inside = ("ins18(i) and implies(forall(0, B, lambda j: " + _R + " <= " + _RB.format(j="j") + ", pat=" + _RB.format(j="j") + "), "
-              + _UNCH.format(o=o) + ")")
-    nearest = "forall(0, B, lambda j: dsq18(grid, i, border_grid, b) <= dsq18(grid, i, border_grid, j), pat=border_grid[j, 0])"
-    m = "mfac18(" + _RB.format(j="b") + ", " + _R + ")"
-    moved = ("(" + _RB.format(j="b") + " < " + _R + " and 0 <= " + m + " and " + m + " < 1"
-             " and {o}[i, 0] == mv18(c0, " + m + ", grid[i, 0]) and {o}[i, 1] == mv18(c1, " + m + ", grid[i, 1]))").format(o=o)
-    kept = "(" + _RB.format(j="b") + " >= " + _R + " and " + _UNCH.format(o=o) + ")"
-    outside = ("out18(i) and implies(exists(0, B, lambda j: " + _RB.format(j="j") + " < " + _R + ", pat=" + _RB.format(j="j") + "),"
+    fires on the squared coordinate difference sqd18(p_i, q_j) (goal-directed), the witness b only on the marker wit18(b) -- so that the Skolem index of a refuted
+    `nearest` never re-triggers the search for b."""
+    R = "rad18(%s, i, %s, %s)" % (G, c0, c1)
+    RB = "rad18(%s, {j}, %s, %s)" % (Bd, c0, c1)
+    RO = "radp18(%s, %s, %s, %s)" % (o0, o1, c0, c1)
+    unch = "same18(%s, %s[i, 0]) and same18(%s, %s[i, 1])" % (o0, G, o1, G)
+    inside = "ins18(i) and implies(forall(0, B, lambda j: " + R + " <= " + RB.format(j="j") + ", pat=" + RB.format(j="j") + "), " + unch + ")"
+    nearest = "forall(0, B, lambda j: dsq18(%s, i, %s, b) <= dsq18(%s, i, %s, j), pat=sqd18(%s[i, 0], %s[j, 0]))" % (G, Bd, G, Bd, G, Bd)
+    m = "mfac18(" + RB.format(j="b") + ", " + R + ")"
+    moved = ("(" + RB.format(j="b") + " < " + R + " and 0 <= " + m + " and " + m + " < 1 and " + o0 + " == mv18(" + c0 + ", " + m + ", "
+             + G + "[i, 0]) and " + o1 + " == mv18(" + c1 + ", " + m + ", " + G + "[i, 1]))")
+    kept = "(" + RB.format(j="b") + " >= " + R + " and " + unch + ")"
+    outside = ("out18(i) and implies(exists(0, B, lambda j: " + RB.format(j="j") + " < " + R + ", pat=" + RB.format(j="j") + "),"
                " exists(0, B, lambda b: wit18(b) and " + nearest + " and (" + moved + " or " + kept + "), pat=wit18(b)))")
-    bounded = ("bnd18(i) and le18(rad18(%s, i, c0, c1), %s) and exists(0, B, lambda j: le18(rad18(%s, i, c0, c1), %s), pat=%s)"
-               % (o, _R, o, _RB.format(j="j"), _RB.format(j="j")))
+    bounded = ("bnd18(i) and le18(" + RO + ", " + R + ") and exists(0, B, lambda j: le18(" + RO + ", " + RB.format(j="j") + "), pat="
+               + RB.format(j="j") + ")")
     return inside, outside, bounded
 
 
-# ghost stepping stones at the end of the loop body (k = pixel_index, cl = closest_pixel_index, o = grid_relocated)
+_E0, _E1 = _exp("G", "Bd", "i", 0, _C0, _C1), _exp("G", "Bd", "i", 1, _C0, _C1)
+_LI, _LO, _LB = _rule(_E0, _E1, "G", "Bd", _C0, _C1)
+_NB = "nb18(G, Bd, i)"
+_SCALE_AT = "scale18(" + _C0 + ", " + _C1 + ", G[i, 0], G[i, 1], rad18(Bd, " + _NB + ", " + _C0 + ", " + _C1 + "))"
+# first nearest border point of grid point i
+spec_fn("nb18", params=[("G", "real[2]"), ("Bd", "real[2]"), ("i", "int")], ret="int",
+        let={"N": "G.shape[0]", "B": "Bd.shape[0]"},
+        axioms=["implies(" + _GUARD + ", forall(0, N, lambda i: 0 <= " + _NB + " and " + _NB + " < B, pat=" + _NB + "))",
+                "implies(" + _GUARD + ", forall(0, N, lambda i: forall(0, B, lambda j:"
+                " dsq18(G, i, Bd, " + _NB + ") <= dsq18(G, i, Bd, j), pat=sqd18(G[i, 0], Bd[j, 0]))))",
+                "implies(" + _GUARD + ", forall(0, N, lambda i: forall(0, B, lambda j:"
+                " implies(j < " + _NB + ", dsq18(G, i, Bd, j) > dsq18(G, i, Bd, " + _NB + ")), pat=sqd18(G[i, 0], Bd[j, 0]))))"],
+        py=_nb_py, doc="index of the first border point at minimal distance from grid point i")
+
+# ghost carrier of the three lemmas "the expected output satisfies the three clauses of the property statement" (pure
+# specification, no program state); only the corollary C18.relocation_rule refers to it, so only that run proves them
+spec_fn("reloc_rule18", params=[("G", "real[2]"), ("Bd", "real[2]"), ("i", "int")], ret="int",
+        let={"N": "G.shape[0]", "B": "Bd.shape[0]"},
+        axioms=["forall(0, N + 1, lambda i: reloc_rule18(G, Bd, i) == i, pat=reloc_rule18(G, Bd, i))"],
+        lemmas=[
+            dict(name="ins", noinduct=True, stmt="implies(" + _GUARD + ", forall(0, N, lambda i: " + _LI + ", pat=ins18(i)))"),
+            dict(name="out", noinduct=True, stmt="implies(" + _GUARD + ", forall(0, N, lambda i: wit18(" + _NB + ") and " + _LO + ", pat=out18(i)))"),
+            dict(name="bnd", noinduct=True, stmt="implies(" + _GUARD + ", forall(0, N, lambda i: " + _SCALE_AT + " and " + _LB + ", pat=bnd18(i)))"),
+        ],
+        py=lambda G, Bd, i: int(i), doc="ghost: identity on i; carries the lemmas rule ins / out / bnd")
+
+# ----------------------------------------------------------------------------- the kernel
+_X0, _X1 = _exp("grid", "border_grid", "i", 0), _exp("grid", "border_grid", "i", 1)
+_K0, _K1 = _exp("grid", "border_grid", "pixel_index", 0), _exp("grid", "border_grid", "pixel_index", 1)
+_INS, _OUT, _BND = _rule("result[i, 0]", "result[i, 1]")
+_RB = "rad18(border_grid, {j}, c0, c1)"
 _RI = "rad18(grid, pixel_index, c0, c1)"
 _RC = "rad18(border_grid, closest_pixel_index, c0, c1)"
-_MF = "mfac18(" + _RC + ", " + _RI + ")"
+_NBK = "nb18(grid, border_grid, pixel_index)"
 _OUTSIDE = "grid_radii[pixel_index] > border_min_radii"
 _MOVED = "(" + _OUTSIDE + " and move_factor < 1)"
-_DY, _DX = "(grid[pixel_index, 0] - c0)", "(grid[pixel_index, 1] - c1)"
-_OY, _OX = "(grid_relocated[pixel_index, 0] - c0)", "(grid_relocated[pixel_index, 1] - c1)"
-_SAMEROW = "same18(grid_relocated[pixel_index, 0], grid[pixel_index, 0]) and same18(grid_relocated[pixel_index, 1], grid[pixel_index, 1])"
+_SAMEROW = "grid_relocated[pixel_index, 0] == grid[pixel_index, 0] and grid_relocated[pixel_index, 1] == grid[pixel_index, 1]"
+# ghost stepping stones at the end of the loop body (k = pixel_index, cl = closest_pixel_index, o = grid_relocated)
 _STEPS = [
-    # not outside: row untouched, and its radius does not exceed any border radius
-    "implies(not " + _OUTSIDE + ", " + _SAMEROW + ")",
-    "implies(not " + _OUTSIDE + ", forall(0, B, lambda j: " + _RI + " <= " + _RB.format(j="j") + ", pat=" + _RB.format(j="j") + "))",
-    # outside: some border radius is smaller; cl is a nearest border point; radii are those of the statement
-    "implies(" + _OUTSIDE + ", exists(0, B, lambda j: " + _RB.format(j="j") + " < " + _RI + ", pat=" + _RB.format(j="j") + "))",
-    "implies(" + _OUTSIDE + ", 0 <= closest_pixel_index and closest_pixel_index < B and wit18(closest_pixel_index))",
+    "implies(not " + _OUTSIDE + ", " + _SAMEROW + " and not " + _RI + " > bmin18(border_grid, 0))",
+    "implies(" + _OUTSIDE + ", " + _RI + " > bmin18(border_grid, 0) and 0 <= closest_pixel_index and closest_pixel_index < B)",
+    # cl is the FIRST nearest border point
     "implies(" + _OUTSIDE + ", forall(0, B, lambda j: dsq18(grid, pixel_index, border_grid, closest_pixel_index)"
-    " <= dsq18(grid, pixel_index, border_grid, j), pat=border_grid[j, 0]))",
-    "implies(" + _OUTSIDE + ", " + _RI + " > 0 and " + _RC + " >= 0 and move_factor == " + _MF + ")",
+    " <= dsq18(grid, pixel_index, border_grid, j), pat=sqd18(grid[pixel_index, 0], border_grid[j, 0])))",
+    "implies(" + _OUTSIDE + ", forall(0, closest_pixel_index, lambda j: dsq18(grid, pixel_index, border_grid, closest_pixel_index)"
+    " < dsq18(grid, pixel_index, border_grid, j), pat=sqd18(grid[pixel_index, 0], border_grid[j, 0])))",
+    "implies(" + _OUTSIDE + ", 0 <= " + _NBK + " and " + _NBK + " < B)",
+    "implies(" + _OUTSIDE + ", dsq18(grid, pixel_index, border_grid, " + _NBK + ") <= dsq18(grid, pixel_index, border_grid, closest_pixel_index))",
+    "implies(" + _OUTSIDE + ", dsq18(grid, pixel_index, border_grid, closest_pixel_index) <= dsq18(grid, pixel_index, border_grid, " + _NBK + "))",
+    "implies(" + _OUTSIDE + ", not closest_pixel_index < " + _NBK + ")",
+    "implies(" + _OUTSIDE + ", not " + _NBK + " < closest_pixel_index)",
+    "implies(" + _OUTSIDE + ", closest_pixel_index == " + _NBK + ")",
+    "implies(" + _OUTSIDE + ", move_factor == mfac18(" + _RC + ", " + _RI + ") and " + _RI + " > 0)",
     "implies(" + _OUTSIDE + " and not move_factor < 1, " + _RC + " >= " + _RI + " and " + _SAMEROW + ")",
-    "implies(" + _MOVED + ", " + _RC + " < " + _RI + " and 0 <= " + _MF + " and " + _MF + " < 1)",
-    "implies(" + _MOVED + ", grid_relocated[pixel_index, 0] == mv18(c0, " + _MF + ", grid[pixel_index, 0])"
-    " and grid_relocated[pixel_index, 1] == mv18(c1, " + _MF + ", grid[pixel_index, 1]))",
-    # moved: the new radius is the radius of the nearest border point (proved lemma "scale" of pyvc/ext/c18.py)
-    "implies(" + _MOVED + ", scale18(c0, c1, grid[pixel_index, 0], grid[pixel_index, 1], " + _RC + ")"
-    " and rad18(grid_relocated, pixel_index, c0, c1) == " + _RC + ")",
+    "implies(" + _MOVED + ", " + _RC + " < " + _RI + ")",
+    "implies(" + _MOVED + ", grid_relocated[pixel_index, 0] == mv18(c0, mfac18(" + _RC + ", " + _RI + "), grid[pixel_index, 0])"
+    " and grid_relocated[pixel_index, 1] == mv18(c1, mfac18(" + _RC + ", " + _RI + "), grid[pixel_index, 1]))",
+    # the current row holds the expected output
+    "grid_relocated[pixel_index, 0] == " + _K0,
+    "grid_relocated[pixel_index, 1] == " + _K1,
 ]
 
 _ext.OPAQUE_ARITH.add(_RELOC)
 _ext.ROW_LEN[_RELOC] = 2
 _ext.NO_ARRAY_EXT.add(_RELOC)
-_INS, _OUT, _BND = _rule("result")
-_INS_L, _OUT_L, _BND_L = _rule("grid_relocated")
-_RO = "rad18(grid_relocated, pixel_index, c0, c1)"
-_STEPS += [
-    # the new radius in the three cases
-    "implies(not " + _OUTSIDE + ", " + _RO + " == " + _RI + ")",
-    "implies(" + _OUTSIDE + " and not move_factor < 1, " + _RO + " == " + _RI + " and " + _RI + " <= " + _RC + ")",
-    "le18(" + _RO + ", " + _RI + ")",
-    "exists(0, B, lambda j: le18(" + _RO + ", " + _RB.format(j="j") + "), pat=" + _RB.format(j="j") + ")",
-]
-# ... and, last, the three clauses of the rule for the current row (the invariant bodies at i = pixel_index)
-_STEPS += [x.replace("[i, ", "[pixel_index, ").replace(", i, ", ", pixel_index, ").replace("18(i)", "18(pixel_index)") for x in (_INS_L, _OUT_L, _BND_L)]
-
-# ... and the rows before the current one keep theirs (they are not written)
-_STEPS += ["forall(0, pixel_index, lambda i: " + x + ", pat=" + mk + "(i))" for x, mk in ((_INS_L, "ins18"), (_OUT_L, "out18"), (_BND_L, "bnd18"))]
+_ext.COROLLARY_MATH[_RELOC] = ["scale18", "rowmark18"]
 
 contract(
     _RELOC, props=["C18"],
     types={"grid": "real[2]", "border_grid": "real[2]"}, returns="real[2]",
-    uses_math=["sqrt_nonneg", "mv18", "scale18", "rowmark18"],
+    uses_math=["sqrt_nonneg", "mv18", "sqd18", "radp18", "scale18", "rowmark18"],
     let={"N": "grid.shape[0]", "B": "border_grid.shape[0]",
          # the border centroid: mean of the border points
          "c0": "np.mean(border_grid[:, 0])", "c1": "np.mean(border_grid[:, 1])"},
@@ -113,31 +169,41 @@ contract(
     ensures=[
         # number and order of coordinates preserved (row i of the result is the image of row i of the input)
         "result.shape[0] == N", "result.shape[1] == 2",
-        "forall(0, N, lambda i: " + _INS + ", pat=ins18(i))",
-        "forall(0, N, lambda i: " + _OUT + ", pat=out18(i))",
-        "forall(0, N, lambda i: " + _BND + ", pat=bnd18(i))",
+        # every output coordinate is the expected one: the relocation rule of the property statement, made deterministic by
+        # taking the FIRST nearest border point on exact ties.  The three clauses of the statement follow: C18.relocation_rule
+        "forall(0, N, lambda i: result[i, 0] == " + _X0 + " and result[i, 1] == " + _X1 + ", pat=grid[i, 0])",
     ],
     loops={0: {"inv": [
         "border_origin[0] == c0 and border_origin[1] == c1",
-        # (trigger: the specification's radius term only -- never derive it from a program array element, or the Skolem
-        #  index of a refuted `nearest` climbs through the element-wise facts back to a radius term and re-triggers `b`)
-        "forall(0, B, lambda j: border_grid_radii[j] == " + _RB.format(j="j") + ", pat=" + _RB.format(j="j") + ")",
-        "forall(0, N, lambda i: grid_radii[i] == " + _R + ", pat=(grid_radii[i], " + _R + "))",
-        "forall(0, B, lambda j: border_min_radii <= border_grid_radii[j], pat=border_grid_radii[j])",
-        "exists(0, B, lambda j: border_min_radii == border_grid_radii[j] and border_min_radii == " + _RB.format(j="j") + ")",
-        "forall(0, pixel_index, lambda i: " + _INS_L + ", pat=ins18(i))",
-        "forall(0, pixel_index, lambda i: " + _OUT_L + ", pat=out18(i))",
-        "forall(0, pixel_index, lambda i: " + _BND_L + ", pat=bnd18(i))",
+        # (triggers: the program's array elements only -- these two facts are needed where the kernel READS a radius, and
+        #  stay silent in every obligation that only talks about the specification's radii, e.g. the postconditions)
+        "forall(0, B, lambda j: border_grid_radii[j] == " + _RB.format(j="j") + ", pat=border_grid_radii[j])",
+        "forall(0, N, lambda i: grid_radii[i] == rad18(grid, i, c0, c1), pat=grid_radii[i])",
+        "border_min_radii == bmin18(border_grid, 0)",
+        "forall(0, pixel_index, lambda i: grid_relocated[i, 0] == " + _X0 + " and grid_relocated[i, 1] == " + _X1 + ", pat=grid[i, 0])",
         "forall(pixel_index, N, lambda i: grid_relocated[i, 0] == grid[i, 0] and grid_relocated[i, 1] == grid[i, 1], pat=grid[i, 0])",
     ], "assert_at": {1: _STEPS}}},
     sentence={
-        "ins18": "every coordinate whose distance from the border centroid does not exceed the smallest border radius is bit-for-bit unchanged",
-        "out18": "any other coordinate moves only along its ray from the centroid, never outward (out = c + m (p - c), 0 <= m < 1), "
-                          "to the radius of its nearest border point when that is smaller than its own",
-        "bnd18": "never outward: no output lies farther from the centroid than its input, nor than the farthest border point",
+        "mv18": "every coordinate is unchanged unless it lies farther from the border centroid than the smallest border radius AND than its "
+                "nearest border point; it is then moved along its ray from the centroid to the radius of that border point",
         "result.shape[0] == N": "the number and order of coordinates are preserved",
     },
 )
+
+corollary("C18.relocation_rule", props=["C18"],
+          vars={"grid": "real[2]", "border_grid": "real[2]"},
+          let={"N": "grid.shape[0]", "B": "border_grid.shape[0]", "c0": "np.mean(border_grid[:, 0])", "c1": "np.mean(border_grid[:, 1])"},
+          requires=["grid.shape[1] == 2", "border_grid.shape[1] == 2", "B >= 1"],
+          calls=[("result", _RELOC, {"grid": "grid", "border_grid": "border_grid"})],
+          ensures=["reloc_rule18(grid, border_grid, 0) == 0",        # ghost: brings the three lemmas in
+                   "result.shape[0] == N and result.shape[1] == 2",
+                   "forall(0, N, lambda i: " + _INS + ", pat=ins18(i))",
+                   "forall(0, N, lambda i: " + _OUT + ", pat=out18(i))",
+                   "forall(0, N, lambda i: " + _BND + ", pat=bnd18(i))"],
+          sentence="every coordinate whose distance from the border centroid does not exceed the smallest border radius is bit-for-bit "
+                   "unchanged; any other coordinate moves only along its ray from the centroid, never outward (out = c + m (p - c), "
+                   "0 <= m < 1), to the radius of its nearest border point when that is smaller than its own; no output lies farther "
+                   "from the centroid than its input, nor than the farthest border point; number and order preserved")
 
 
 # ----------------------------------------------------------------------------- farthest sub-pixel of a border pixel
@@ -264,3 +330,63 @@ def _g_centre(rng, tier):
 CONTRACTS[G2 + "furthest_grid_2d_slim_index_from"].gen = _g_furthest
 CONTRACTS[G2 + "furthest_grid_2d_slim_index_from"].nontrivial = lambda slim_indexes, **kw: len(set(slim_indexes.tolist())) >= 2
 CONTRACTS[G2 + "grid_2d_centre_from"].gen = _g_centre
+
+
+# ----------------------------------------------------------------------------- sub-border indices (bounded: engine C only)
+# `sub_border_pixel_slim_indexes_from` builds a Python list of lists (`[[] for _ in range(n)]`, `.append`) and iterates an
+# array with enumerate over float-typed indices: outside the engine-A subset.  Its two numeric kernels are under contract
+# (furthest_grid_2d_slim_index_from, grid_2d_centre_from above; border_slim_indexes_from and the over-sampling kernels in
+# c10 / c09).  The whole function is checked at run time against the statement.
+BR = "autoarray.inversion.pixelization.border_relocator:"
+
+
+def _sub_border_ok(mask_2d, sub_size, result):
+    """for each border pixel (the library's own border list, C10's business): the selected index is a sub-pixel OF THAT
+    PIXEL and is farthest, in pixel units, from the centre of the bounding box of the unmasked region (exact ties: any)"""
+    from autoarray.mask import mask_2d_util
+    mask = np.asarray(mask_2d, dtype=bool)
+    sub = np.asarray(sub_size).astype(int).ravel()
+    border = np.asarray(mask_2d_util.border_slim_indexes_from(mask_2d=mask.copy())).astype(int)
+    res = np.asarray(result)
+    if res.shape != border.shape:
+        return False
+    ii, jj = np.nonzero(~mask)
+    cy, cx = (ii.min() + ii.max()) / 2.0, (jj.min() + jj.max()) / 2.0
+    offs = np.concatenate([[0], np.cumsum(sub ** 2)])
+    for t, k in enumerate(border):
+        i, j, s = int(ii[k]), int(jj[k]), int(sub[k])
+        d = {}
+        for a in range(s):
+            for b in range(s):
+                d[int(offs[k]) + a * s + b] = math.hypot(i + (a + 0.5) / s - 0.5 - cy, j + (b + 0.5) / s - 0.5 - cx)
+        g = res[t]
+        if int(g) != g or int(g) not in d or d[int(g)] < max(d.values()) - 1e-9:
+            return False
+    return True
+
+
+macro("sub_border_ok18", ["mask_2d", "sub_size", "result"], "True", py=_sub_border_ok)
+contract(
+    BR + "sub_border_pixel_slim_indexes_from", props=["C18"], mode="bounded",
+    types={"mask_2d": "bool[2]", "sub_size": "int[1]"}, returns="real[1]",
+    requires=["sub_size.shape[0] == total(mask_2d)", "total(mask_2d) >= 1", "forall(0, sub_size.shape[0], lambda k: sub_size[k] >= 1)"],
+    ensures=["sub_border_ok18(mask_2d, sub_size, result)"],
+    sentence={"sub_border_ok18": "the sub-pixel border indices select, for each border pixel of the mask, the sub-pixel of that pixel that is "
+                                 "farthest, measured in pixel units, from the centre of the bounding box of the unmasked region"},
+    note="bounded: list-of-lists construction is outside the engine-A subset",
+)
+
+
+def _g_sub_border(rng, tier):
+    for m in gens.all_masks(gens.budget(tier, 9, 12), min_unmasked=1):
+        n = int((~m).sum())
+        yield {"mask_2d": m, "sub_size": np.array([rng.randint(1, 3) for _ in range(n)], dtype=int)}
+    for _ in range(gens.budget(tier, 150, 3000)):
+        m = gens.random_mask(rng, 6, 6, min_unmasked=1)
+        n = int((~m).sum())
+        s = rng.randint(1, 3)
+        yield {"mask_2d": m, "sub_size": np.full(n, s, dtype=int) if rng.random() < 0.5 else np.array([rng.randint(1, 3) for _ in range(n)], dtype=int)}
+
+
+CONTRACTS[BR + "sub_border_pixel_slim_indexes_from"].gen = _g_sub_border
+CONTRACTS[BR + "sub_border_pixel_slim_indexes_from"].nontrivial = lambda mask_2d, sub_size: int(sub_size.max()) > 1 and int((~mask_2d).sum()) > 1
